@@ -817,6 +817,77 @@ def inline_simple_properties(tree):
         out.append('%s.%s' % (C.name, name))
     return out
 
+def desugar_conditional_statements(tree):
+    """``return A if T else B`` and ``x = A if T else B`` (plain name / attribute targets) become the if/else statements
+    they abbreviate.  -> number of statements rewritten"""
+    count = [0]
+
+    def split(st):
+        if isinstance(st, ast.Return) and isinstance(st.value, ast.IfExp):
+            e = st.value
+            a = ast.copy_location(ast.Return(value=e.body), st)
+            b = ast.copy_location(ast.Return(value=e.orelse), st)
+        elif isinstance(st, ast.Assign) and isinstance(st.value, ast.IfExp) and len(st.targets) == 1 and \
+                isinstance(st.targets[0], (ast.Name, ast.Attribute)) and (isinstance(st.targets[0], ast.Name) or isinstance(st.targets[0].value, ast.Name)):
+            e = st.value
+            a = ast.copy_location(ast.Assign(targets=[_clone(st.targets[0])], value=e.body), st)
+            b = ast.copy_location(ast.Assign(targets=[_clone(st.targets[0])], value=e.orelse), st)
+        else:
+            return None
+        count[0] += 1
+        new = ast.copy_location(ast.If(test=e.test, body=split(a) or [a], orelse=split(b) or [b]), st)
+        ast.fix_missing_locations(new)
+        return [new]
+
+    def first_walrus(e):
+        """the assignment expression that is evaluated first, unconditionally, when e is evaluated (or None)"""
+        if isinstance(e, ast.NamedExpr):
+            return e
+        if isinstance(e, ast.Compare):
+            return first_walrus(e.left)
+        if isinstance(e, ast.UnaryOp):
+            return first_walrus(e.operand)
+        if isinstance(e, ast.BoolOp):
+            return first_walrus(e.values[0])
+        if isinstance(e, ast.Call) and not isinstance(e.func, ast.NamedExpr) and not e.args:
+            return None
+        return None
+
+    def hoist_walrus(st):
+        """``if (x := E) is not None:`` -> ``x = E`` in front of ``if x is not None:``"""
+        if not isinstance(st, ast.If):
+            return None
+        w = first_walrus(st.test)
+        if w is None or not isinstance(w.target, ast.Name) or any(isinstance(x, ast.NamedExpr) for x in ast.walk(w.value)):
+            return None
+        assign = ast.copy_location(ast.Assign(targets=[ast.Name(id=w.target.id, ctx=ast.Store())], value=w.value), st)
+        ast.fix_missing_locations(assign)
+
+        class R(ast.NodeTransformer):
+            def visit_NamedExpr(self, node):
+                if node is w:
+                    return ast.copy_location(ast.Name(id=w.target.id, ctx=ast.Load()), node)
+                return self.generic_visit(node)
+        st.test = R().visit(st.test)
+        count[0] += 1
+        return [assign, st]
+
+    def walk(node):
+        for fld in ('body', 'orelse', 'finalbody'):
+            lst = getattr(node, fld, None)
+            if isinstance(lst, list) and lst and isinstance(lst[0], ast.stmt):
+                out = []
+                for st in lst:
+                    walk(st)
+                    out.extend(split(st) or hoist_walrus(st) or [st])
+                setattr(node, fld, out)
+        for h in getattr(node, 'handlers', []) or []:
+            walk(h)
+        for c in getattr(node, 'cases', []) or []:
+            walk(c)
+    walk(tree)
+    return count[0]
+
 
 class FuncInfo:
     def __init__(self, module, node, cls=None, parent=None):
@@ -942,6 +1013,7 @@ class Module:
             self.src = f.read()
         self.tree = repo.parsed(name)
         self.desugared = desugar_match(self.tree)
+        self.conditionals = desugar_conditional_statements(self.tree)
         self.inlined_properties = inline_simple_properties(self.tree)
         self.flattened = flatten_single_use_bases(self.tree, repo.foreign_text(name))
         self.specialised = specialise_template_methods(self.tree)
